@@ -8,6 +8,9 @@ Static rules over the seven generators (and mjcf_schema.py where they consume it
  R-MEMBER-SCAN     a `.members` scan that keeps only Attr members of an element must also handle its Use members (or
                    range over the groups too): otherwise inherited attributes are dropped and what is derived from the
                    scan disagrees with what is emitted from the expansion (schema.expanded_attrs)
+ R-MODULE-STATE    no module-/class-level mutable object is changed by a function and read back (memo tables, accumulators,
+                   `global` re-binding, functools caches, mutable defaults) unless the stored value is a function of its key;
+                   the module-level mutable objects are listed in the evidence
  R-ASSUME-GUAR     lookups in schema.enums/groups/elements use keys the validator has checked (or keys of the table);
                    the schema a generator sees always comes from parse_file/parse_string
  R-RECURSION       element-tree walks (recursive or work-list) carry an ancestry/visited guard, because the validator
@@ -708,6 +711,341 @@ def rule_member_scan(res, mods, und):
                         "that is never defined); iterate schema.expanded_attrs(element), handle Use, or range over the groups too")
 
 
+# ============================================================================ R-MODULE-STATE
+_MUTABLE_CTORS = {"dict", "list", "set", "defaultdict", "OrderedDict", "deque", "Counter", "bytearray"}
+_MUTATORS = {"append", "extend", "insert", "add", "update", "setdefault", "pop", "popitem", "remove", "discard", "clear",
+             "appendleft", "extendleft", "popleft", "sort", "reverse", "__setitem__", "__delitem__"}
+_KEYED_MUTATORS = {"setdefault", "__setitem__"}
+_CACHE_DECORATORS = {"lru_cache", "cache", "cached_property", "functools.lru_cache", "functools.cache",
+                     "functools.cached_property"}
+_IO_CALLS = {"open", "input", "parse_file", "parse_dims", "read", "readlines", "listdir", "getenv", "urlopen"}
+
+
+def _is_mutable_value(v):
+    if isinstance(v, (ast.Dict, ast.List, ast.Set, ast.DictComp, ast.ListComp, ast.SetComp)):
+        return True
+    if isinstance(v, ast.Call):
+        name = v.func.id if isinstance(v.func, ast.Name) else (v.func.attr if isinstance(v.func, ast.Attribute) else None)
+        return name in _MUTABLE_CTORS
+    return False
+
+
+def _census(mod):
+    """{(class name | None, name): Assign node} of the module- and class-level names bound to mutable containers."""
+    out = {}
+    def scan(body, cname):
+        for st in body:
+            tgt = val = None
+            if isinstance(st, ast.Assign) and len(st.targets) == 1:
+                tgt, val = st.targets[0], st.value
+            elif isinstance(st, ast.AnnAssign) and st.value is not None:
+                tgt, val = st.target, st.value
+            if isinstance(tgt, ast.Name) and val is not None and _is_mutable_value(val):
+                out[(cname, tgt.id)] = st
+            if isinstance(st, (ast.If, ast.Try, ast.With)) and cname is None:
+                for fld in ("body", "orelse", "finalbody"):
+                    scan(getattr(st, fld, []) or [], cname)
+    scan(mod.tree.body, None)
+    for cname, c in mod.classes.items():
+        scan(c.body, cname)
+    return out
+
+
+def _state_ref(node, fn, censuses):
+    """(module name, class | None, name) when the expression denotes a module- / class-level mutable object of an analysed
+    module: a global name, `module.name`, `Cls.name`, or `self.name` for a class-level container the methods never
+    re-bind on the instance."""
+    mod = node._mod
+    if isinstance(node, ast.Name):
+        if (fn is None or P._scope_of(node.id, fn) is None) and (None, node.id) in censuses.get(mod.name, {}):
+            return (mod.name, None, node.id)
+        return None
+    if isinstance(node, ast.Attribute) and isinstance(node.value, ast.Name):
+        base = node.value.id
+        if base in mod.classes and (base, node.attr) in censuses.get(mod.name, {}):
+            return (mod.name, base, node.attr)
+        if base in ("self", "cls") and fn is not None and fn.cls and (fn.cls, node.attr) in censuses.get(mod.name, {}):
+            rebound = any(isinstance(x, ast.Attribute) and isinstance(x.ctx, ast.Store) and isinstance(x.value, ast.Name)
+                          and x.value.id == "self" and x.attr == node.attr
+                          for g in mod.funcs.values() if g.cls == fn.cls for x in mod.nodes(g))
+            return None if rebound else (mod.name, fn.cls, node.attr)
+        target = mod.imports.get(base)
+        if target and (fn is None or not P._is_local(node.value, fn)) and (None, node.attr) in censuses.get(target.split(".")[-1], {}):
+            return (target.split(".")[-1], None, node.attr)
+    return None
+
+
+class _Deps:
+    """Access paths (rooted at parameters / enclosing-function variables) an expression's value depends on, through plain
+    local assignments and loop variables.  `bad` is set when something cannot be followed."""
+
+    def __init__(self, fn, censuses, written):
+        self.fn, self.censuses, self.written = fn, censuses, written
+        self.bad = None
+        self._busy = set()
+
+    def of(self, expr, fn=None):
+        fn = fn or self.fn
+        out = set()
+        bound = {x.id for c in ast.walk(expr) if isinstance(c, ast.comprehension) for x in ast.walk(c.target)
+                 if isinstance(x, ast.Name)}
+        bound |= {a.arg for l in ast.walk(expr) if isinstance(l, ast.Lambda) for a in l.args.args}
+
+        def chain_of(n):
+            parts = []
+            while isinstance(n, ast.Attribute):
+                parts.append(n.attr)
+                n = n.value
+            return (n, list(reversed(parts))) if isinstance(n, ast.Name) else (None, None)
+
+        def visit(n, parent_call_func=False):
+            if isinstance(n, (ast.Attribute, ast.Name)) and isinstance(getattr(n, "ctx", None), ast.Load):
+                root, parts = chain_of(n)
+                if root is not None:
+                    if parent_call_func and parts:
+                        parts = parts[:-1]            # x.m(..): the method may read any part of x
+                    ref = _state_ref(n, fn, self.censuses) or _state_ref(root, fn, self.censuses)
+                    if ref and ref in self.written:
+                        out.add("<state>" + ".".join(str(x) for x in ref if x))
+                        return
+                    if root.id in bound:
+                        return
+                    self._name(root.id, parts, fn, out, n)
+                    return
+            if isinstance(n, ast.Call):
+                visit(n.func, True)
+                for a in list(n.args) + [k.value for k in n.keywords]:
+                    visit(a.value if isinstance(a, ast.Starred) else a)
+                # a helper that reads written module state carries that dependence
+                kind, tg = P.resolve(n, fn, (P.model().mod,)) if hasattr(n, "_mod") else ("unknown", None)
+                if kind == "func":
+                    for g in P.closure(tg, (P.model().mod,)):
+                        for x in g.mod.nodes(g):
+                            r = _state_ref(x, g, self.censuses) if isinstance(x, (ast.Name, ast.Attribute)) else None
+                            if r and r in self.written:
+                                out.add("<state>" + ".".join(str(y) for y in r if y))
+                elif kind == "unknown":
+                    self.bad = self.bad or f"call `{P.text(n)[:40]}` cannot be resolved"
+                return
+            for c in ast.iter_child_nodes(n):
+                visit(c)
+        visit(expr)
+        return out
+
+    def _name(self, name, parts, fn, out, at):
+        scope = P._scope_of(name, fn)
+        if scope is None:
+            return                               # builtin / module constant / function / class / import
+        stores = [x for x in P.stores_of(scope).get(name, []) if not any(isinstance(a, ast.comprehension) for a in P.ancestors(x))]
+        if name in scope.params and not stores:
+            out.add(".".join([name] + parts))
+            return
+        if (scope, name) in self._busy:
+            return
+        self._busy.add((scope, name))
+        try:
+            if name in scope.params:
+                out.add(name)
+            for x in stores:
+                top = x
+                while not isinstance(top._parent, ast.stmt):
+                    top = top._parent
+                st = top._parent
+                if isinstance(st, ast.Assign):
+                    out |= self.of(st.value, scope)
+                elif isinstance(st, ast.AugAssign):
+                    out |= self.of(st.value, scope)
+                elif isinstance(st, ast.AnnAssign) and st.value is not None:
+                    out |= self.of(st.value, scope)
+                elif isinstance(st, ast.For) and top._field == "target":
+                    out |= self.of(st.iter, scope)
+                elif isinstance(st, (ast.With, ast.AsyncWith)):
+                    for it in st.items:
+                        out |= self.of(it.context_expr, scope)
+                else:
+                    self.bad = self.bad or f"binding of `{name}` ({type(st).__name__}) is not followed"
+        finally:
+            self._busy.discard((scope, name))
+
+
+def _key_paths(key, fn):
+    """Access paths a key is made of: each component must be a parameter or an attribute chain of one (through
+    single-assigned locals); other components determine nothing."""
+    key = P._single_value(key, fn)
+    comps = key.elts if isinstance(key, ast.Tuple) else [key]
+    out = set()
+    for c in comps:
+        c = P._single_value(c, fn)
+        parts, n = [], c
+        while isinstance(n, ast.Attribute):
+            parts.append(n.attr)
+            n = n.value
+        if isinstance(n, ast.Name) and P._scope_of(n.id, fn) is not None and n.id in P._scope_of(n.id, fn).params and \
+                n.id not in P.stores_of(P._scope_of(n.id, fn)):
+            out.add(".".join([n.id] + list(reversed(parts))))
+    return out
+
+
+def _covered(dep, keys):
+    return any(dep == k or dep.startswith(k + ".") for k in keys)
+
+
+def rule_module_state(res, mods, und):
+    sm = P.model()
+    res.rule("R-MODULE-STATE", "generation is a function of the schema: no function of the generators stores into a module- or "
+             "class-level mutable object (subscript store, mutator call, `global` re-binding, mutable default argument, "
+             "functools cache decorator) whose content is read back, unless the stored value is a function of the key it is "
+             "stored under (every parameter path the value depends on is a component of the key, or lies below one)", floor=6)
+    allmods = mods + [sm.mod]
+    censuses = {m.name: _census(m) for m in allmods}
+    writes = {}          # ref -> [(fn, node, kind, key expr | None, value expr | None)]
+    reads = {}           # ref -> [(fn, node, keyed?)]
+    for mod in allmods:
+        for fn in mod.funcs.values():
+            globs = {nm for n in mod.nodes(fn) if isinstance(n, ast.Global) for nm in n.names}
+            for n in mod.nodes(fn):
+                # re-binding of a module-level name
+                if isinstance(n, ast.Name) and isinstance(n.ctx, (ast.Store, ast.Del)) and n.id in globs:
+                    st = P.stmt_of(n)
+                    val = getattr(st, "value", None)
+                    writes.setdefault((mod.name, None, n.id), []).append((fn, n, "rebind", None, val))
+                    continue
+                if not isinstance(n, (ast.Name, ast.Attribute)):
+                    continue
+                ref = _state_ref(n, fn, censuses)
+                if isinstance(n, ast.Name) and n.id in globs and isinstance(n.ctx, ast.Load):
+                    ref = ref or (mod.name, None, n.id)
+                if ref is None or (isinstance(n._parent, ast.Attribute) and n._field == "value" and _state_ref(n._parent, fn, censuses)):
+                    continue
+                p = n._parent
+                if isinstance(p, ast.Subscript) and n._field == "value":
+                    if isinstance(p.ctx, (ast.Store, ast.Del)):
+                        st = P.stmt_of(p)
+                        val = st.value if isinstance(st, (ast.Assign, ast.AugAssign)) else None
+                        writes.setdefault(ref, []).append((fn, p, "item", p.slice, val))
+                    else:
+                        reads.setdefault(ref, []).append((fn, p, True))
+                elif isinstance(p, ast.Attribute) and n._field == "value" and isinstance(p._parent, ast.Call) and p._field == "func":
+                    call = p._parent
+                    if p.attr in _MUTATORS:
+                        keyed = p.attr in _KEYED_MUTATORS and len(call.args) == 2
+                        writes.setdefault(ref, []).append((fn, call, p.attr, call.args[0] if keyed else None,
+                                                           call.args[1] if keyed else (call.args[0] if call.args else None)))
+                        if p.attr in ("setdefault", "pop", "popitem", "popleft") and not isinstance(call._parent, ast.Expr):
+                            reads.setdefault(ref, []).append((fn, call, p.attr == "setdefault"))
+                    else:
+                        reads.setdefault(ref, []).append((fn, call, p.attr == "get"))
+                elif isinstance(p, ast.Compare) and n._field == "comparators" and isinstance(p.ops[n._idx], (ast.In, ast.NotIn)):
+                    reads.setdefault(ref, []).append((fn, p, True))
+                elif isinstance(p, ast.AugAssign) and n._field == "target":
+                    writes.setdefault(ref, []).append((fn, p, "augassign", None, p.value))
+                    reads.setdefault(ref, []).append((fn, p, False))
+                elif isinstance(n.ctx, ast.Load):
+                    reads.setdefault(ref, []).append((fn, n, False))
+    written = set(writes)
+    census_out = []
+    for mname, cen in sorted(censuses.items()):
+        for (cname, name), node in sorted(cen.items(), key=lambda kv: (str(kv[0][0]), kv[0][1])):
+            ref = (mname, cname, name)
+            label = ".".join(x for x in (mname, cname, name) if x)
+            use = "written in " + ", ".join(sorted({w[0].qual for w in writes[ref]})) if ref in writes else "read-only"
+            census_out.append({"object": label, "line": node.lineno, "use": use})
+            if ref not in writes:
+                res.ok("R-MODULE-STATE", f"{label}:read-only", {"file": DIR + mname + ".py", "line": node.lineno})
+    res.extra["module_level_mutable_objects"] = census_out
+    res.count("module_level_mutable_objects", len(census_out))
+    # ---- written objects
+    for ref, ws in sorted(writes.items(), key=lambda kv: tuple(str(x) for x in kv[0])):
+        label = ".".join(x for x in ref[1:] if x)
+        rd = reads.get(ref, [])
+        for fn, node, kind, key, val in ws:
+            construct = f"{fn.mod.name}.{fn.qual}:{label}"
+            f = _file(fn.mod)
+            if not rd:
+                res.ok("R-MODULE-STATE", construct, {"file": f, "line": node.lineno, "how": "WRITE-ONLY (never read back)"})
+                continue
+            d = _Deps(fn, censuses, written)
+            deps = d.of(val, fn) if val is not None else set()
+            if kind in ("item", "setdefault", "__setitem__") and key is not None:
+                keys = _key_paths(key, fn)
+                unkeyed = [r for r in rd if not r[2]]
+                missing = sorted(x for x in deps if not _covered(x, keys))
+                if d.bad and not missing:
+                    und.add("R-MODULE-STATE", construct, f, node.lineno, f"what the stored value depends on cannot be followed: {d.bad}")
+                elif missing:
+                    res.bad("R-MODULE-STATE", construct, f, node.lineno,
+                            f"`{label}` outlives the call and is read back; the value stored under key `{P.text(P._single_value(key, fn))[:60]}` depends on "
+                            f"{missing}, which the key (made of {sorted(keys) or 'nothing traceable'}) does not determine: a later call "
+                            "with another object that has the same key gets the earlier object's result -- the output is no longer "
+                            "a function of the schema")
+                elif unkeyed:
+                    res.bad("R-MODULE-STATE", construct, f, unkeyed[0][1].lineno,
+                            f"`{label}` is filled across calls and read as a whole (`{P.text(unkeyed[0][1])[:50]}`): its content depends on "
+                            "every earlier call in the process")
+                else:
+                    res.ok("R-MODULE-STATE", construct, {"file": f, "line": node.lineno,
+                                                         "how": f"MEMO keyed by {sorted(keys)} covers {sorted(deps)}"})
+                continue
+            if kind == "rebind" and not deps and not d.bad and val is not None:
+                res.ok("R-MODULE-STATE", construct, {"file": f, "line": node.lineno, "how": "INITIALISED-ONCE (value depends on no argument)"})
+                continue
+            if d.bad and kind == "rebind":
+                und.add("R-MODULE-STATE", construct, f, node.lineno, f"what the stored value depends on cannot be followed: {d.bad}")
+                continue
+            res.bad("R-MODULE-STATE", construct, f, node.lineno,
+                    f"`{label}` is a module-/class-level object changed by `{P.text(node)[:50]}` on every call and read back "
+                    f"(`{P.text(rd[0][1])[:40]}` in {rd[0][0].qual}): state that persists across generate() calls flows into the "
+                    "output or into a decision")
+    # ---- cache decorators and mutable default arguments
+    for mod in allmods:
+        for fn in mod.funcs.values():
+            f = _file(mod)
+            for dec in fn.node.decorator_list:
+                dn = P.text(dec.func if isinstance(dec, ast.Call) else dec)
+                if dn not in _CACHE_DECORATORS:
+                    continue
+                construct = f"{mod.name}.{fn.qual}:{dn.split('.')[-1]}"
+                why = None
+                if fn.parent is not None:
+                    res.ok("R-MODULE-STATE", construct, {"file": f, "line": fn.node.lineno, "how": "PER-CALL (cache of a nested function)"})
+                    continue
+                for g in P.closure([fn], (sm.mod,)):
+                    for x in g.mod.nodes(g):
+                        if isinstance(x, (ast.Name, ast.Attribute)) and isinstance(getattr(x, "ctx", None), ast.Load):
+                            r = _state_ref(x, g, censuses)
+                            if r and r in written:
+                                why = f"reads `{'.'.join(y for y in r[1:] if y)}` (module state written elsewhere) in {g.qual}"
+                        if isinstance(x, ast.Call):
+                            nm = x.func.id if isinstance(x.func, ast.Name) else (x.func.attr if isinstance(x.func, ast.Attribute) else "")
+                            if nm in _IO_CALLS:
+                                why = why or f"reads the environment (`{P.text(x)[:40]}` in {g.qual})"
+                            if P.resolve(x, g, (sm.mod,))[0] == "unknown":
+                                why = why or f"calls `{P.text(x.func)[:30]}`, which cannot be resolved"
+                if why:
+                    res.bad("R-MODULE-STATE", construct, f, fn.node.lineno,
+                            f"results of {fn.qual}({', '.join(fn.params)}) are cached for the life of the process, but the result is "
+                            f"not a function of the arguments alone: it {why}; a later call with equal arguments returns the stale result")
+                else:
+                    res.ok("R-MODULE-STATE", construct, {"file": f, "line": fn.node.lineno, "how": "PURE (a function of its arguments)"})
+            a = fn.node.args
+            posl = a.posonlyargs + a.args
+            for prm, dflt in list(zip(posl[len(posl) - len(a.defaults):], a.defaults)) + \
+                    [(k, v) for k, v in zip(a.kwonlyargs, a.kw_defaults) if v is not None]:
+                if not _is_mutable_value(dflt):
+                    continue
+                construct = f"{mod.name}.{fn.qual}:default[{prm.arg}]"
+                mutated = [x for x in mod.nodes(fn) if
+                           (isinstance(x, ast.Subscript) and isinstance(x.ctx, (ast.Store, ast.Del)) and P.text(x.value) == prm.arg) or
+                           (isinstance(x, ast.Call) and isinstance(x.func, ast.Attribute) and x.func.attr in _MUTATORS
+                            and P.text(x.func.value) == prm.arg)]
+                if mutated and prm.arg not in P.stores_of(fn):
+                    res.bad("R-MODULE-STATE", construct, f, mutated[0].lineno,
+                            f"the mutable default of parameter `{prm.arg}` is one object shared by all calls and is changed by "
+                            f"`{P.text(mutated[0])[:50]}`: state that persists across calls")
+                else:
+                    res.ok("R-MODULE-STATE", construct, {"file": f, "line": fn.node.lineno, "how": "default never mutated"})
+
+
 # ============================================================================ R-ASSUME-GUAR
 def _eq_guaranteed(node, fn, key_text, T, guar):
     """Dominating `any(isinstance(m, C) and m.<field> == key ...)` with (C, field) a validator guarantee for table T."""
@@ -1129,6 +1467,7 @@ def run(res, tier):
     rule_member(res, mods)
     und = P.Undecided()
     rule_member_scan(res, mods, und)
+    rule_module_state(res, mods, und)
     literals = rule_guar(res, mods, und)
     rule_recursion(res, mods, und)
     res.count("modules", len(mods) + 1)
@@ -1398,6 +1737,65 @@ MUTANTS += [
                 "    flags_targets = {member.target\n                     for decl in declarations\n"
                 "                     for member in decl.members\n                     if isinstance(member, mjcf_schema.Attr)\n"
                 "                     and member.type == 'flags'}\n")]},
+]
+
+
+_EC_DEF = "def _element_constraints(schema, element):\n  \"\"\"Element's own constraints plus those of transitively used groups.\"\"\"\n"
+_EC_RENAMED = "def _collect_constraints(schema, element):\n  \"\"\"Element's own constraints plus those of transitively used groups.\"\"\"\n"
+
+
+def _memo(store, key="(schema.path, element.name)", pre=""):
+    """_element_constraints() split into a memoising front and the collecting walk (the shape of seed C42-stale-constraint-memo)."""
+    front = (pre + "def _element_constraints(schema, element):\n" + f"  key = {key}\n" + store + "\n\n")
+    return [(TABLE_PY, _EC_DEF, front + _EC_RENAMED)]
+
+
+_MEMO_GLOBAL = ("  if key not in _CONSTRAINTS:\n    _CONSTRAINTS[key] = tuple(_collect_constraints(schema, element))\n"
+                "  return list(_CONSTRAINTS[key])\n")
+_VISIT_ROW = "    row_index = count\n"
+
+MUTANTS += [
+    # R-MODULE-STATE
+    {"id": "module-memo-keyed-by-path-and-name", "expect": ("R-MODULE-STATE", "generate_mjcf_table._element_constraints:_CONSTRAINTS"),
+     "edits": _memo(_MEMO_GLOBAL, pre="_CONSTRAINTS = {}\n\n\n")},
+    {"id": "module-memo-setdefault-keyed-by-name", "expect": ("R-MODULE-STATE", "generate_mjcf_table._element_constraints:_CONSTRAINTS"),
+     "edits": _memo("  return list(_CONSTRAINTS.setdefault(key, tuple(_collect_constraints(schema, element))))\n",
+                    key="element.name", pre="_CONSTRAINTS = {}\n\n\n")},
+    {"id": "lru-cache-on-path-and-name-helper", "expect": ("R-MODULE-STATE", "generate_mjcf_table._constraints_for:lru_cache"),
+     "edits": [(TABLE_PY, "import os\n", "import functools\nimport os\n"),
+               (TABLE_PY, _EC_DEF,
+                "@functools.lru_cache(maxsize=None)\ndef _constraints_for(path, name):\n  schema = mjcf_schema.parse_file(path)\n"
+                "  return tuple(_collect_constraints(schema, schema.elements[name]))\n\n\n"
+                "def _element_constraints(schema, element):\n  return list(_constraints_for(schema.path, element.name))\n\n\n" + _EC_RENAMED)]},
+    {"id": "module-list-appended-and-joined", "expect": ("R-MODULE-STATE", "generate_mjcf_table.generate.emit_entry:_LOG"),
+     "edits": [(TABLE_PY, _EC_DEF, "_LOG = []\n\n\n" + _EC_DEF),
+               (TABLE_PY, "    out.extend(lines)\n", "    out.extend(lines)\n    _LOG.append(len(lines))\n"),
+               (TABLE_PY, "  body = '\\n'.join(out)\n", "  body = '\\n'.join(out) + '// ' + ' '.join(str(n) for n in _LOG)\n")]},
+    {"id": "global-counter-rebound-per-call", "expect": ("R-MODULE-STATE", "generate_mjcf_table.generate.emit_entry:_ROWS"),
+     "edits": [(TABLE_PY, _EC_DEF, "_ROWS = 0\n\n\n" + _EC_DEF),
+               (TABLE_PY, "    out.extend(lines)\n", "    global _ROWS\n    out.extend(lines)\n    _ROWS = _ROWS + len(lines)\n"),
+               (TABLE_PY, "  body = '\\n'.join(out)\n", "  body = '\\n'.join(out) + f'// {_ROWS}'\n")]},
+    {"id": "mutable-default-used-as-memo", "expect": ("R-MODULE-STATE", "generate_mjcf_table._element_constraints:default[memo]"),
+     "edits": [(TABLE_PY, _EC_DEF, "def _element_constraints(schema, element, memo={}):\n  if element.name not in memo:\n"
+                "    memo[element.name] = tuple(_collect_constraints(schema, element))\n  return list(memo[element.name])\n\n\n" + _EC_RENAMED)]},
+    {"id": "ctl-memo-in-per-call-local-dict", "expect": None,
+     "edits": [(TABLE_PY, "  out = []\n  constraints = []\n  count = 0\n", "  out = []\n  constraints = []\n  count = 0\n  memo = {}\n"),
+               (TABLE_PY, "    for con in _element_constraints(schema, element):\n",
+                "    if element.name not in memo:\n      memo[element.name] = _element_constraints(schema, element)\n"
+                "    for con in memo[element.name]:\n")]},
+    {"id": "ctl-memo-on-the-emitter-object", "expect": None,
+     "edits": [(XSD_PY, "    self.pending = []\n", "    self.pending = []\n    self.con_memo = {}\n"),
+               (XSD_PY, "    for con in generate_mjcf_table._element_constraints(self.schema, element):\n",
+                "    if element.name not in self.con_memo:\n      self.con_memo[element.name] = generate_mjcf_table._element_constraints(self.schema, element)\n"
+                "    for con in self.con_memo[element.name]:\n")]},
+    {"id": "ctl-module-constant-table-only-read", "expect": None,
+     "edits": [(TABLE_PY, _EC_DEF, "_SEPARATORS = {'bundle': ' ', 'group': '|'}\n\n\n" + _EC_DEF),
+               (TABLE_PY, "        spec = '|'.join(' '.join(b) for b in con.bundles)\n",
+                "        spec = _SEPARATORS['group'].join(_SEPARATORS['bundle'].join(b) for b in con.bundles)\n")]},
+    {"id": "ctl-module-memo-value-is-a-function-of-the-key", "expect": None,
+     "edits": [(TABLE_PY, "def _wrap_row(", "_PAD = {}\n\n\ndef _pad(indent: int) -> str:\n  if indent not in _PAD:\n"
+                "    _PAD[indent] = ' ' * indent\n  return _PAD[indent]\n\n\ndef _wrap_row("),
+               (TABLE_PY, "  line = ' ' * indent + '{' + parts[0]\n", "  line = _pad(indent) + '{' + parts[0]\n")]},
 ]
 
 
